@@ -40,6 +40,31 @@ class FakeDatetime(_real_datetime, metaclass=_Meta):
     def today(cls):
         return cls.now()
 
+    # every other alternative constructor hands out plain datetime objects: CPython loses `fold` when
+    # fromtimestamp() is called on a subclass, which would make the shim (not the tool) wrong in the repeated hour
+    @classmethod
+    def fromtimestamp(cls, t, tz=None):
+        return _real_datetime.fromtimestamp(t, tz)
+
+    @classmethod
+    def utcfromtimestamp(cls, t):
+        return _real_datetime.utcfromtimestamp(t)
+
+    @classmethod
+    def fromisoformat(cls, s):
+        return _real_datetime.fromisoformat(s)
+
+    @classmethod
+    def strptime(cls, s, f):
+        return _real_datetime.strptime(s, f)
+
+    @classmethod
+    def combine(cls, *a, **kw):
+        return _real_datetime.combine(*a, **kw)
+
+    def __new__(cls, *a, **kw):
+        return _real_datetime.__new__(_real_datetime, *a, **kw)
+
 
 def _cur():
     if _state["now"] is None:
